@@ -100,7 +100,26 @@ fn module<M: World>(report: &Report, ctr: &Ctr, tier: Tier, seed: u64) {
         for &cs in &SEEDS {
             for &ss in &SEEDS {
                 // client side: ProofSeed::new() draws cs; proof must be the definition and seed() the draw
-                let u = ns(user);
+                // (the name object comes from each of the five constructors in turn, and is a clone every other time)
+                let u = {
+                    use std::convert::TryFrom;
+                    use wow_srp::normalized_string::NormalizedString as NS;
+                    let k = (cs as usize).wrapping_add(ss as usize).wrapping_add(ui) % 5;
+                    let built = match k {
+                        0 => NS::new(user),
+                        1 => NS::from_str(user),
+                        2 => NS::from_string(user.to_string()),
+                        3 => NS::try_from(user),
+                        _ => NS::try_from(user.to_string()),
+                    };
+                    match built {
+                        Ok(n) => if (cs ^ ss) & 1 == 1 { n.clone() } else { n },
+                        Err(e) => {
+                            viol(report, M::NAME, "permitted-name-refused", json!({"username": user, "constructor": k}), format!("a permitted account name is refused by constructor #{k}: {e}"));
+                            continue;
+                        }
+                    }
+                };
                 let (r, used, _) = with_script(&cs.to_le_bytes(), || M::client(&u, *key, ss));
                 ctr.cases.fetch_add(1, Ordering::Relaxed);
                 let (cseed, proof) = match r {
